@@ -497,6 +497,7 @@ fn sec_item(r: Option<Result<Section, sections::Error>>) -> String {
 }
 
 fn op_sections(src: Vec<Ev>, cap: usize) -> String {
+    let again = src.clone();
     let mut reader = Reader::new(Script::new(src));
     let mut it = reader.sections();
     let mut out = Vec::new();
@@ -505,6 +506,23 @@ fn op_sections(src: Vec<Ev>, cap: usize) -> String {
         let end = r.is_none();
         out.push(sec_item(r));
         if end {
+            // the drain ended by itself: the iterator's other entry points (overridable trait methods) must
+            // agree with repeated next() — count(), last(), size_hint() on fresh iterators over the same stream
+            let n = out.len() - 1;
+            let mut r2 = Reader::new(Script::new(again.clone()));
+            let it2 = r2.sections();
+            let (lo, hi) = it2.size_hint();
+            let c = it2.count();
+            let mut r3 = Reader::new(Script::new(again));
+            let last = r3.sections().last();
+            let want_last = if n == 0 { "done".to_string() } else { out[n - 1].clone() };
+            if c != n || lo > n || hi.map_or(false, |h| h < n) {
+                let k = out.len() - 1;
+                out[k] = format!("adaptor-differ:count={},size_hint=({},{:?})-for-{}-items", c, lo, hi, n);
+            } else if sec_item(last) != want_last {
+                let k = out.len() - 1;
+                out[k] = "adaptor-differ:last".to_string();
+            }
             return out.join(" ; ");
         }
     }
@@ -569,6 +587,49 @@ fn op_step(hdr: Vec<u8>, recs: Vec<Vec<u8>>, cap: usize) -> String {
         }
     }
     out.push(if ended { "done".to_string() } else { "cap".to_string() });
+    // the iterator's other entry points (count, last, nth, size_hint — overridable trait methods) must agree
+    // with repeated next(); only asked when the drain ended by itself, so none of them can run forever
+    if ended && plain == proj {
+        let n = proj.len();
+        let show = |r: Option<Result<ContiguousIntervalPair, chainfile::liftover::stepthrough::Error>>| match r {
+            None => "none".to_string(),
+            Some(Ok(p)) => format!("P {}", pair_str(&p)),
+            Some(Err(e)) => st_err_str(&e).to_string(),
+        };
+        let mut bad: Option<String> = None;
+        if let Ok(st) = section.stepthrough() {
+            let (lo, hi) = st.size_hint();
+            if lo > n || hi.map_or(false, |h| h < n) {
+                bad = Some(format!("size_hint({},{:?})-for-{}-items", lo, hi, n));
+            }
+            let c = st.count();
+            if c != n {
+                bad = Some(format!("count={}-for-{}-items", c, n));
+            }
+        }
+        if let Ok(st) = section.stepthrough() {
+            let l = show(st.last());
+            if l != proj.last().cloned().unwrap_or("none".into()) {
+                bad = Some("last".into());
+            }
+        }
+        for k in 0..=n {
+            if let Ok(mut st) = section.stepthrough() {
+                if show(st.nth(k)) != proj.get(k).cloned().unwrap_or("none".into()) {
+                    bad = Some(format!("nth({})", k));
+                }
+            }
+        }
+        if let Ok(st) = section.stepthrough_with_data() {
+            if st.count() != n {
+                bad = Some("with_data.count".into());
+            }
+        }
+        if let Some(b) = bad {
+            out.push(format!("plain=differ:{}:adaptor-{}", n, b.replace(' ', "")));
+            return out.join(" ; ");
+        }
+    }
     // `plain` was drained with take(cap): cap items means it did not end by itself
     out.push(if plain == proj {
         "plain=ok".to_string()
